@@ -80,6 +80,11 @@ func (c16) Plan(tier string, seed int64) []core.Scenario {
 	for i := 0; i < na; i++ {
 		out = append(out, core.Sc("alias-isolation").WithN("m", 2+i%5).WithN("rot", i))
 	}
+	for f := 1; f < len(c01Formatters); f++ {
+		for order := 0; order < 2; order++ {
+			out = append(out, core.Sc("revformat").WithN("fmt", f).WithN("order", order))
+		}
+	}
 	for i := range out {
 		out[i].Seed = seed*122949829 + int64(i)
 		out[i] = out[i].WithN("noise", i%3)
@@ -104,6 +109,8 @@ func (p c16) Run(sc core.Scenario) core.Result {
 		p.notifyGone(sc, r)
 	case "alias-isolation":
 		p.aliasIsolation(sc, r)
+	case "revformat":
+		p.revFormat(sc, r)
 	}
 	return r.Result()
 }
@@ -511,4 +518,55 @@ func (c16) aliasIsolation(sc core.Scenario, r *core.R) {
 	}
 	r.Key(fmt.Sprintf("alias-isolation m=%d rot=%d", M, sc.I("rot")%3), true)
 	r.Sample(map[string]interface{}{"scenario": "alias-isolation", "clients": M})
+}
+
+// revFormat: server and client are configured with the same non-default method name formatter. The server's
+// reverse client then names its calls with that formatter, whichever order the server options were given
+// in; the client listens under that name through an alias onto its handler (client-side handler tables are
+// keyed "Namespace.Method"), next to a decoy registered under the default-formatted name.
+func (c16) revFormat(sc core.Scenario, r *core.R) {
+	fm := c01Formatters[sc.I("fmt")]
+	sopts := []jsonrpc.ServerOption{jsonrpc.WithServerMethodNameFormatter(fm.f), jsonrpc.WithReverseClient[svc.RevAPI]("R")}
+	if sc.I("order") == 1 {
+		sopts = []jsonrpc.ServerOption{jsonrpc.WithReverseClient[svc.RevAPI]("R"), jsonrpc.WithServerMethodNameFormatter(fm.f)}
+	}
+	env := NewEnv(EnvOpt{ServerOpts: sopts})
+	defer env.Shutdown()
+	rs, decoy := svc.New(), svc.New()
+	c, err := env.NewClient(ClientOpt{Opts: []jsonrpc.Option{
+		jsonrpc.WithMethodNameFormatter(fm.f),
+		jsonrpc.WithClientHandler("Impl", &svc.RevHandler{Identity: "IMPL", S: rs}),
+		jsonrpc.WithClientHandlerAlias(fm.f("R", "Ident"), "Impl.Ident"),
+		jsonrpc.WithClientHandlerAlias(fm.f("R", "RFail"), "Impl.RFail"),
+		jsonrpc.WithClientHandler("R", &svc.RevHandler{Identity: "DECOY", S: decoy}),
+	}})
+	if err != nil {
+		r.Inconclusive("client: %v", err)
+		return
+	}
+	bg := context.Background()
+	label := fmt.Sprintf("formatter=%s on both sides, server options given as %s", fm.name, []string{"formatter, reverse client", "reverse client, formatter"}[sc.I("order")])
+	for i := 0; i < 3; i++ {
+		t := Tok("v")
+		o := Go(t, func() (string, error) { return c.Rev(bg, t, 1, 0) })
+		if !o.Wait(core.Grace) {
+			r.Violate("reverse-hang", "%s: forward call with a nested reverse call did not return", label)
+			return
+		}
+		r.Obs("reverse_calls", 1)
+		if want := "IMPL/" + t + ".r0"; o.Err != nil || o.Val != want {
+			r.Violate("reverse-name-mismatch", "%s: the reverse call %q must reach the client handler listening under that name; forward call returned (%q, %v), expected %q (decoy ran %d times)", label, fm.f("R", "Ident"), o.Val, o.Err, want, decoy.Enters(t+".r0"))
+		}
+		t2 := Tok("v")
+		o2 := Go(t2, func() (string, error) { return c.Rev(bg, t2, 1, 3) })
+		if !o2.Wait(core.Grace) {
+			r.Violate("reverse-hang", "%s: forward call with a failing reverse call did not return", label)
+			return
+		}
+		if want := svc.ErrText(t2+".r0") + "@IMPL"; o2.Err == nil || !strings.Contains(o2.Err.Error(), want) {
+			r.Violate("reverse-name-mismatch", "%s: the reverse call %q must reach the failing client handler; got (%q, %v)", label, fm.f("R", "RFail"), o2.Val, o2.Err)
+		}
+	}
+	r.Key(fmt.Sprintf("revformat %s order=%d", fm.name, sc.I("order")), true)
+	r.Sample(map[string]interface{}{"scenario": "reverse calls under a non-default formatter", "formatter": fm.name, "option_order": sc.I("order")})
 }
